@@ -1,5 +1,5 @@
 """C01 -- requests reach the server exactly as issued, in Modbus wire format."""
-from e2e import E2E, canon_req
+from e2e import E2E, canon_req, st1_obs
 from vlib import Case
 import mb, cligen
 
@@ -9,7 +9,8 @@ class PROP(E2E):
     rule = ("every request variant (payload lengths 0, 1, limit-1, limit; field values at 0/1/0x7FFF/0x8000/0xFFFF), raw custom requests for "
             "every code the framing carries, generic call and typed methods, all 256 slave ids incl. defaults and set_slave histories, written "
             "by the real TCP/RTU client under several write granularities, then fed under random chunkings (all compositions for short frames) "
-            "to the real TCP and RTU-over-TCP servers.  Oracle: bytes written == independent spec frame (once); service invoked exactly once "
+            "to the real TCP and RTU-over-TCP servers, and pipelined behind an answered request to the real serial RTU server on a pty; the real client talking "
+            "directly to the real server of its transport over loopback sockets and a pty.  Oracle: bytes written == independent spec frame (once); service invoked exactly once "
             "with the same slave id and an equal request.  non-trivial = distinct (request, slave, chunking)")
 
     def scenarios(self, rng, tier):
@@ -61,6 +62,16 @@ class PROP(E2E):
         st = m.get("stage", 0)
         if "PANIC" in (c.impl or ""):
             return "panic"
+        if st == "direct":
+            obs = self.direct_obs(c)
+            if len(obs) != len(m["ops"]):
+                return "end-to-end run: %s" % (c.impl or "")[:100]
+            for (res, seen), op in zip(obs, m["ops"]):
+                cr = canon_req(mb.parse_req(op["req"]))
+                want = ["C:%d:%s" % (m["slave"], mb.show_req(cr))]
+                if seen != want:
+                    return "real client -> real %s server: service saw %s for the issued %s (slave %d)" % (m["flavour"], [x[:60] for x in seen[:3]], op["req"][:60], m["slave"])
+            return None
         req = mb.parse_req(m["req"])
         if st == 0:
             res, w = cligen.res_and_w(cligen.split_results(c.impl)[-1])
@@ -71,7 +82,7 @@ class PROP(E2E):
             return None if w == want else "client wrote %s for %s to slave %d; spec frame is %s" % (w.hex()[:80], m["req"][:50], m["slave"], want.hex()[:80])
         if st == 1:
             cr = canon_req(req)
-            calls = [t for t in (c.impl or "").split(",") if t.startswith("C:")]
+            calls, _ws = st1_obs(c)
             if cr is None:
                 return None        # custom data that is malformed for a modelled code: C08's business
             want = "C:%d:%s" % (m["slave"], mb.show_req(cr))
